@@ -44,6 +44,8 @@ def upd_val(pt, n):
 
 def hdr(tok):
     n, lim = tok["n"], tok["lim"]
+    if n == "bi":
+        return {"g": 2, "v": tok.get("v", 0), "q": 6}
     v = {"c0": 1, "c1": 2, "c2": 3, "c3": 4}[n]
     if lim >= 0:
         return {"g": 60, "v": v, "q": 7, "count": lim}
